@@ -248,6 +248,47 @@ def units(world):
         for which in ["none", "fresh"] + list(range(n)):
             out.append(mk_wrapper(n, which))
 
+    # ---------------------------------------------------------------- RegexMatch.__init__ (span of a pattern match)
+    def mk_regexmatch():
+        from pyvc.values import UTerm, ModVal
+        def setup(it, w):
+            s0, e0 = z3.Int("span.start"), z3.Int("span.end")
+            it.assume(z3.And(s0 >= 0, s0 < e0))      # C19 lemma: no zero-length match
+            txt = UTerm("input", ["match text"], "str")
+            txt.sym_len = e0 - s0                    # A-regex: group(key) is the text between span(key)
+            txt.starts_nonblank = True               # RegLan lemma no-leading-blank (all patterns)
+            return [s0, e0, txt, {}]
+
+        def call(it, w, a):
+            s0, e0, txt, seen = a
+            keys = []
+
+            def span(it2, args, k):
+                keys.append(args[0] if args else 0)
+                return (s0, e0)
+
+            def group(it2, args, k):
+                keys.append(args[0] if args else 0)
+                return txt
+            m = ModVal("match", {"span": Builtin("match.span", span), "group": Builtin("match.group", group)})
+            seen["keys"] = keys
+            return it.instantiate(w.classes["RegexMatch"], [123, m], {})
+
+        def ens(it, w, a, r):
+            s0, e0, txt, seen = a
+            ok = isinstance(r, Obj) and r.cls.name == "RegexMatch"
+            if not ok:
+                return [("constructs-a-match", ["C02"], False)]
+            ms, me = r.attrs.get("mstart"), r.attrs.get("mend")
+            from pyvc.values import UTerm as U
+            stripped = it.world.builtins["len"].fn(it, [U("str.rstrip", [txt])], {})
+            return [("span-starts-at-the-match-and-is-not-empty", ["C02", "C09", "C19"], z3.And(ms == s0, ms < me, me <= e0)),
+                    ("span-ends-at-the-last-non-blank-character", ["C09", "C02"], me - ms == stripped),
+                    ("id-and-group-key", ["C15", "C19"], r.attrs.get("id") == 123 and all(k == "R123" for k in seen["keys"]) and len(seen["keys"]) >= 2)]
+        return FuncUnit("types.RegexMatch.__init__", ["types.RegexMatch.__init__"], ["C02", "C09", "C15", "C19", "C12"], setup, call, ens,
+                        prop_map={"safety": ["C01", "C02"], "frame": ["C12"]})
+    out.append(mk_regexmatch())
+
     # ---------------------------------------------------------------- C18: ==, hash, text form
     MK = {"Time": symargs.mk_time, "Interval": symargs.mk_interval, "Duration": symargs.mk_duration}
 
